@@ -1184,7 +1184,9 @@ class Container:
             raise ValueError("Solution is impossible to create.")
 
         for i in range(len(a)):
-            if abs(sum(a[i] * xs) - b[i]) > 1e-6:
+            # every stated value must be met, relative to the size of the terms it balances
+            scale = max(abs(b[i]), max(abs(a[i] * xs)))
+            if abs(sum(a[i] * xs) - b[i]) > 1e-6 * scale:
                 raise ValueError("Solution is impossible to create.")
 
         initial_contents = list((substance, f"{x} {'U' if substance.is_enzyme() else 'mol'}") for x, substance in
